@@ -94,6 +94,18 @@ def run(res, tier, seed):
                "    ecall\n",
                "main:\n    jal fn_a\n    jal fn_b\n    jal fn_c\n    addi a7, zero, 10\n    ecall\nfn_a:\n    addi a0, a0, 1\nfn_b:\nfn_c:\n"
                "    addi a0, a0, 2\n    ret\n"]
+    # one saved register overwritten on both arms of a branch (at the same and at different distances
+    # from the single return), on three arms, and twice on one arm: every overwrite is found whatever
+    # order the backward search meets them in
+    for reg in rng.sample(["s0", "s1", "s5", "s11", "ra"], 3):
+        for extra_then, extra_else in (([], []), ([], ["    addi a0, a0, 1"]), (["    nop", "    nop"], [])):
+            shared.append("\n".join(["main:", "    li a0, 1", "    jal pick", "    li a7, 10", "    ecall", "pick:",
+                                     "    beq a0, zero, pick_else", f"    li {reg}, 1"] + extra_then +
+                                    ["    j pick_end", "pick_else:", f"    li {reg}, 2"] + extra_else +
+                                    ["pick_end:", "    ret"]) + "\n")
+        shared.append("\n".join(["main:", "    li a0, 1", "    jal pick", "    li a7, 10", "    ecall", "pick:",
+                                 "    beqz a0, p2", "    bltz a0, p3", f"    li {reg}, 1", f"    addi {reg}, {reg}, 1", "    j pe",
+                                 "p2:", f"    li {reg}, 2", "    j pe", "p3:", f"    li {reg}, 3", "pe:", "    ret"]) + "\n")
     srcs = shared + programs(rng, n)
     # two-return functions whose paths disagree about a saved register / sp, in both file layouts:
     # the diagnostics must not depend on which return the (hash-ordered) markup makes the exit
